@@ -88,7 +88,7 @@ Section Build.
     | PSetext _ lines =>
       let underline := rstrip (last lines []) in
       Some (SetextHeading (if endswith [61] underline then 1 else 2) underline
-                          (inline (join [10] (map strip (removelast lines)))))
+                          (inline (strip (concat (map lstrip (removelast lines))))))
     | PHtmlBlock _ lines => Some (HtmlBlock (rstrip_set [10] (concat lines)))
     | PBlankLine _ => Some BlankLine
     end.
